@@ -198,14 +198,14 @@ func storesToField(fn *ssa.Function, fa *ssa.FieldAddr) bool {
 
 type sinkWrite struct {
 	ins    ssa.CallInstruction
-	what   string     // "marker", "value", "bytes", "segment", "call"
-	val    ssa.Value  // written value (unwrapped)
-	size   linear     // bytes written
-	marker int64      // constant uint16 value >= 0xFF00 if the write is a marker constant, else -1
+	what   string    // "marker", "value", "bytes", "segment", "call"
+	val    ssa.Value // written value (unwrapped)
+	size   linear    // bytes written
+	marker int64     // constant uint16 value >= 0xFF00 if the write is a marker constant, else -1
 	callee string
-	decl   *linear    // a length field whose value is known as a linear form (synthesised fields)
-	psot   linear     // what == "sot": the Psot value, in the caller's terms
-	isot   ssa.Value  // what == "sot": the Isot argument
+	decl   *linear   // a length field whose value is known as a linear form (synthesised fields)
+	psot   linear    // what == "sot": the Psot value, in the caller's terms
+	isot   ssa.Value // what == "sot": the Isot argument
 }
 
 // instrIndexIn: a stable position of an instruction inside its function (block index * 1000 + offset).
@@ -463,7 +463,7 @@ func runC16(c *Ctx) Info {
 		c.C.ExpectControl(r)
 	}
 	return Info{
-		Explanation: "ORDER-FRAMING: in every top-level encode function the start-marker write dominates every other write to the sink, the end-marker write dominates every nil-error return and nothing is written after it. OWNER-LENGTH: length-bearing JPEG markers are emitted only through Writer.WriteSegment (which computes len+2); a manual marker+length+payload sequence is handed to BYTES. BYTES: for every JPEG 2000 marker segment and SOT/Psot the bytes written between the marker and the next marker are counted symbolically (constant + len(x) terms, range loops multiplied) and compared with the expression stored in the length field. OWNER-SINK: an entropy coder's byte sink is discovered structurally — a field (io.Writer, bytes.Buffer, []byte) of a library struct, in encode-reachable code, for which some method of the struct both tests what it emits against 0xFF/0xFF00 and writes the field (Huffman, Golomb, packet-header bit writer, MQ coder, HT MEL/MagSgn/VLC writers); every function that writes such a field must apply that test itself or be a raw emit helper called only by functions that do.",
+		Explanation:  "ORDER-FRAMING: in every top-level encode function the start-marker write dominates every other write to the sink, the end-marker write dominates every nil-error return and nothing is written after it. OWNER-LENGTH: length-bearing JPEG markers are emitted only through Writer.WriteSegment (which computes len+2); a manual marker+length+payload sequence is handed to BYTES. BYTES: for every JPEG 2000 marker segment and SOT/Psot the bytes written between the marker and the next marker are counted symbolically (constant + len(x) terms, range loops multiplied) and compared with the expression stored in the length field. OWNER-SINK: an entropy coder's byte sink is discovered structurally — a field (io.Writer, bytes.Buffer, []byte) of a library struct, in encode-reachable code, for which some method of the struct both tests what it emits against 0xFF/0xFF00 and writes the field (Huffman, Golomb, packet-header bit writer, MQ coder, HT MEL/MagSgn/VLC writers); every function that writes such a field must apply that test itself or be a raw emit helper called only by functions that do.",
 		DoesNotCover: "that stuffing is arithmetically correct (MQ 0x8F rule), field order inside a header, marker codes inside packet bodies, TLM totals beyond the per-part expression, header fields equal to the arguments (NARROW / FLOWS-HEADER are reported under C17)",
 		Trusted:      commonTrusted,
 		Extra:        map[string]any{"framing_functions": nFraming, "length_sites": nOwnerLen, "bytes_segments": nBytes, "sinks": nSink},
